@@ -2059,6 +2059,118 @@ def state_machine_stream(ctx, n_cases):
             ctx.broke('correspondence', 'C10 state machine (%s)' % l.split()[0], dict(line=l[:300], model=o[:300], implementation=e[:300]))
 
 
+# ----------------------------------------------------------------------------------------------- round 6: machines tied to the code
+def round6_stream(ctx, n_cases):
+    """K for model definitions that had theorems but no correspondence: (a) `EmitterState.new/apply/run` — histories of
+    `voxel_map` / `mask` writes (right shape, permuted shape with the same number of cells, other shapes; dtypes int32/int64/bool/
+    uint8) on ONE real emitter, inside try/except: status of every write, then `voxel_map`, `voxel_map_mv`, `bins`, `mask`;
+    (b) `Pipe1D.observe` — initialise + update per task (a pixel may get two tasks, some none) on a real RayTransferPipeline1D and,
+    through the flattened pixel index, RayTransferPipeline2D; (c) `pixelProcess` — add_sample histories on the real Power / Radiance
+    pixel processors.  S oracles next to them: per-pixel mean of the LAST task (`pipe1D_observe_is_mean`), running sum."""
+    from raysect.optical import Spectrum
+    from cherab.tools.raytransfer import RayTransferPipeline1D, RayTransferPipeline2D
+    from cherab.tools.raytransfer import CartesianRayTransferEmitter, CylindricalRayTransferEmitter
+    from cherab.tools.raytransfer.pipelines import PowerRayTransferPixelProcessor, RadianceRayTransferPixelProcessor
+    rng = ctx.rng
+    lines, exp = [], []
+    for it in range(n_cases):
+        # (a) emitter map-setter history
+        shape = (rng.randint(1, 3), rng.randint(1, 3), rng.randint(1, 3))
+        n = shape[0] * shape[1] * shape[2]
+        if rng.random() < 0.5:
+            em = CartesianRayTransferEmitter(shape, (1.0, 0.5, 0.25))
+        else:
+            em = CylindricalRayTransferEmitter(shape, (0.5, 360.0 / shape[1], 1.0), rmin=rng.choice([0.0, 0.5]))
+        toks, stat = [], []
+        for _ in range(rng.randint(1, 6)):
+            u = rng.random()
+            if u < 0.6:
+                sh = shape
+            elif u < 0.8:
+                sh = rng.choice([(shape[1], shape[2], shape[0]), (shape[2], shape[1], shape[0]), (n, 1, 1), (1, 1, n)])
+            else:
+                sh = (rng.randint(1, 3), rng.randint(1, 3), rng.randint(1, 3))
+            m = sh[0] * sh[1] * sh[2]
+            if rng.random() < 0.5:
+                vals = [rng.choice([-1, -1, 0, 0, 1, 2, 5, -3]) for _ in range(m)]
+                arr = np.array(vals, dtype=rng.choice([np.int32, np.int64, np.int16])).reshape(sh)
+                toks += ['v', str(sh[0]), str(sh[1]), str(sh[2]), str(m)] + [str(v) for v in vals]
+                st = call(setattr, em, 'voxel_map', arr)[0]
+            else:
+                p = rng.choice([0.0, 0.3, 0.7, 1.0])
+                vals = [1 if rng.random() < p else 0 for _ in range(m)]
+                arr = np.array(vals, dtype=rng.choice([bool, np.uint8])).reshape(sh)
+                toks += ['m', str(sh[0]), str(sh[1]), str(sh[2]), str(m)] + [str(v) for v in vals]
+                st = call(setattr, em, 'mask', arr)[0]
+            stat.append('1' if st == 'ok' else '0')
+            if (st == 'ok') != (tuple(sh) == shape):
+                ctx.fail('C10:%s:%s' % ('voxel_map' if toks[-m - 5] == 'v' else 'mask',
+                                        'invalid-value-accepted' if st == 'ok' else 'legal-layout-rejected'),
+                         'grid %r: write of shape %r -> %s' % (shape, sh, st), dict(kind='emitter-history', shape=shape, tokens=toks))
+        ints = lambda a: ' '.join(str(int(v)) for v in np.asarray(a).ravel())
+        lines.append('ehist %d %d %d %s' % (shape + (' '.join(toks),)))
+        exp.append('%s | %s | %s | %d | %s' % (' '.join(stat), ints(em.voxel_map), ints(em.voxel_map_mv), em.bins,
+                                                ' '.join('1' if b else '0' for b in np.asarray(em.mask).ravel())))
+        ctx.count('K:emitter-history')
+        # (b) 1D / 2D pipeline, one observe on a pipeline that was used before
+        two_d = rng.random() < 0.5
+        kind = rng.choice(['power', 'radiance'])
+        pipe = (RayTransferPipeline2D if two_d else RayTransferPipeline1D)(kind=kind)
+        for rep in range(rng.randint(1, 2)):
+            pix = (rng.randint(1, 3), rng.randint(1, 2)) if two_d else rng.randint(1, 5)
+            npix = pix[0] * pix[1] if two_d else pix
+            ps, bins = rng.randint(1, 7), rng.randint(1, 4)
+            pipe.initialise(pix, ps, 500.0, 501.0, bins, 1, True)
+            toks, last = [], {}
+            for _ in range(rng.randint(0, npix + 2)):
+                k = rng.randrange(npix)
+                arr = np.array([rng.choice([0.0, 0.5, 1.25, rng.uniform(0, 3)]) for _ in range(bins)])
+                if two_d:
+                    pipe.update(k // pix[1], k % pix[1], 0, (arr, 0))
+                else:
+                    pipe.update(k, 0, (arr, 0))
+                last[k] = arr
+                toks += [str(k)] + [f2b(v) for v in arr]
+            pipe.finalise()
+        mat = np.asarray(pipe.matrix).reshape(npix, bins)
+        for k in range(npix):
+            want = last[k] / ps if k in last else np.zeros(bins)
+            if not np.allclose(mat[k], want, rtol=1e-12, atol=0.0):
+                ctx.fail('C10:pipeline%s:update:not-per-sample-mean' % ('2D' if two_d else '1D'),
+                         'pixel %d of %r, pixel_samples %d: row %r, packed result / pixel_samples %r' % (k, pix, ps, mat[k].tolist(), want.tolist()),
+                         dict(kind='pipeline-methods-1d2d', pixels=pix, samples=ps, bins=bins))
+        lines.append('pipe1d %d %d %d %d %s' % (npix, ps, bins, len(toks) // (bins + 1), ' '.join(toks)))
+        exp.append(' | '.join(fs([float(v) for v in row]) for row in mat))
+        ctx.count('K:pipeline%s-observe' % ('2D' if two_d else '1D'))
+        # (c) pixel processor
+        bins = rng.randint(1, 4)
+        proc = (PowerRayTransferPixelProcessor if kind == 'power' else RadianceRayTransferPixelProcessor)(bins)
+        toks, tot = [], np.zeros(bins)
+        ns = rng.randint(0, 5)
+        for _ in range(ns):
+            sp = Spectrum(500.0, 501.0, bins)
+            arr = np.array([rng.choice([0.0, 0.5, 1.25, rng.uniform(0, 3)]) for _ in range(bins)])
+            sp.samples[:] = arr
+            sens = rng.choice([1.0, 0.5, 2.0, rng.uniform(0.1, 4)])
+            proc.add_sample(sp, sens)
+            tot = tot + (arr * sens if kind == 'power' else arr)
+            toks += [f2b(sens)] + [f2b(v) for v in arr]
+        packed = proc.pack_results()
+        if not np.allclose(packed[0], tot, rtol=1e-12, atol=0.0):
+            ctx.fail('C10:pixel-processor:%s:not-the-sum-of-samples' % kind,
+                     '%d samples: packed %r, expected %r' % (ns, list(packed[0]), tot.tolist()), dict(kind='pixel-processor', pkind=kind, bins=bins))
+        lines.append('pixproc %s %d %d %s' % (kind, bins, ns, ' '.join(toks)))
+        exp.append(fs([float(v) for v in packed[0]]))
+        ctx.count('K:pixel-processor')
+    outs = ctx.driver(lines)
+    for l, e, o in zip(lines, exp, outs):
+        ctx.traces += 1
+        ctx.case(key=('round6', l[:60]))
+        if e != o:
+            ctx.disagreements += 1
+            ctx.broke('correspondence', 'C10 round-6 machine (%s)' % l.split()[0], dict(line=l[:300], model=o[:300], implementation=e[:300]))
+
+
 # ----------------------------------------------------------------------------------------------- pipelines
 def _observers():
     """deterministic 1D / 2D observers (python subclasses of raysect's abstract observers): pixel -> one fixed ray"""
@@ -2293,7 +2405,7 @@ def run(ctx):
                         'sampling bound |entry - chord| <= dt per maximal interval of ray∩cell is enforced for every source; the literal '
                         '2*step-per-cell clause is enforced per cell under the identity map (signatures *:cell-error-exceeds-two-steps:*)']
     setup_translator(ctx)
-    ctx.lean_check(['Cherab.Props.C10'], 'Cherab/Audit/C10.lean')
+    ctx.lean_check(['Cherab.Props.C10', 'Cherab.Props.C10Geom'], 'Cherab/Audit/C10.lean')
     run_corpus(ctx)
     cap = ctx.n(3000, 20000)
     maps_stream(ctx, ctx.n(100, 1000))
@@ -2305,6 +2417,7 @@ def run(ctx):
     aliasing_stream(ctx, ctx.n(300, 3000), cap)
     rejected_stream(ctx, ctx.n(120, 1200), cap)
     state_machine_stream(ctx, ctx.n(200, 2000))
+    round6_stream(ctx, ctx.n(200, 2000))
     shared_integrator_stream(ctx, ctx.n(150, 1500), cap)
     multitask_stream(ctx, ctx.n(40, 400))
     pipeline_stream(ctx, ctx.n(18, 150))
